@@ -155,9 +155,9 @@ class SystemBlueprint(yamlize.Object):
             system.spatialGrid.armiObject = system
 
         reactor.add(system)  # ensure the reactor is the parent
-        spatialLocator = grids.CoordinateLocation(
-            self.origin.x, self.origin.y, self.origin.z, None
-        )
+        # `origin` is optional: a system without one sits at the origin of the reactor
+        origin = self.origin if self.origin is not None else Triplet()
+        spatialLocator = grids.CoordinateLocation(origin.x, origin.y, origin.z, None)
         system.spatialLocator = spatialLocator
         if context.MPI_RANK != 0:
             # Non-primary nodes get the reactor via DistributeState.
